@@ -47,16 +47,24 @@ pub open spec fn sorted_by_key(t: Seq<EntryV>) -> bool {
     forall|i: int, j: int| #![trigger t[i], t[j]] 0 <= i < j < t.len() ==> lex_le(t[i].id.key, t[j].id.key)
 }
 /// every emitted entry is one of the pushed entries
+pub open spec fn is_from(x: EntryV, t: Seq<EntryV>) -> bool {
+    exists|i: int| 0 <= i < t.len() && #[trigger] t[i] == x
+}
 pub open spec fn from_input(out: Seq<EntryV>, t: Seq<EntryV>) -> bool {
-    forall|m: int| 0 <= m < out.len() ==> exists|i: int| 0 <= i < t.len() && #[trigger] out[m] == #[trigger] t[i]
+    forall|m: int| 0 <= m < out.len() ==> is_from(#[trigger] out[m], t)
 }
 /// no key is emitted twice
 pub open spec fn keys_distinct(out: Seq<EntryV>) -> bool {
     forall|m: int, n: int| #![trigger out[m], out[n]] 0 <= m < n < out.len() ==> out[m].id.key != out[n].id.key
 }
+/// `o` has the key of `x` and a timestamp at least as great
+pub open spec fn dominates(o: EntryV, x: EntryV) -> bool { o.id.key == x.id.key && o.val.ts >= x.val.ts }
+pub open spec fn covered(x: EntryV, out: Seq<EntryV>) -> bool {
+    exists|m: int| 0 <= m < out.len() && dominates(#[trigger] out[m], x)
+}
 /// for every pushed entry, an entry with its key and a timestamp at least as great is emitted
 pub open spec fn covers_max(out: Seq<EntryV>, t: Seq<EntryV>) -> bool {
-    forall|i: int| 0 <= i < t.len() ==> exists|m: int| 0 <= m < out.len() && (#[trigger] out[m]).id.key == (#[trigger] t[i]).id.key && out[m].val.ts >= t[i].val.ts
+    forall|i: int| 0 <= i < t.len() ==> covered(#[trigger] t[i], out)
 }
 
 pub proof fn lemma_sorted_grouped(t: Seq<EntryV>)
@@ -67,6 +75,110 @@ pub proof fn lemma_sorted_grouped(t: Seq<EntryV>)
         assert(lex_le(t[i].id.key, t[j].id.key));
         assert(lex_le(t[j].id.key, t[k].id.key));
         lemma_lex_le_antisym(t[i].id.key, t[j].id.key);
+    }
+}
+
+/// removing one of the first two elements, or the first element, keeps equal keys contiguous
+pub proof fn lemma_grouped_sub(t: Seq<EntryV>, t2: Seq<EntryV>, w_at: int)
+    requires
+        grouped(t), t.len() >= 1, t2.len() == t.len() - 1, 0 <= w_at <= 1,
+        t2.len() > 0 ==> t2[0] == t[w_at],
+        forall|i: int| 1 <= i < t2.len() ==> #[trigger] t2[i] == t[i + 1],
+    ensures grouped(t2)
+{
+    assert forall|i: int, j: int, k: int| #![trigger t2[i], t2[j], t2[k]] 0 <= i < j < k < t2.len() && t2[i].id.key == t2[k].id.key implies t2[j].id.key == t2[i].id.key by {
+        let fi = if i == 0 { w_at } else { i + 1 };
+        assert(t2[i] == t[fi] && t2[j] == t[j + 1] && t2[k] == t[k + 1]);
+        assert(fi < j + 1 < k + 1);
+        assert(t[fi].id.key == t[k + 1].id.key ==> t[j + 1].id.key == t[fi].id.key);
+    }
+}
+
+/// step "same key": t = [x, e] + rest with x.key == e.key; t2 = [w] + rest where w = t[w_at] is the one kept
+pub proof fn lemma_case_same(t: Seq<EntryV>, t2: Seq<EntryV>, out: Seq<EntryV>, w_at: int)
+    requires
+        t.len() >= 2, t2.len() == t.len() - 1, 0 <= w_at <= 1,
+        t2[0] == t[w_at],
+        forall|i: int| 1 <= i < t2.len() ==> #[trigger] t2[i] == t[i + 1],
+        t[0].id.key == t[1].id.key, t[w_at].val.ts >= t[0].val.ts, t[w_at].val.ts >= t[1].val.ts,
+        from_input(out, t2), covers_max(out, t2),
+    ensures from_input(out, t), covers_max(out, t)
+{
+    assert forall|m: int| 0 <= m < out.len() implies is_from(#[trigger] out[m], t) by {
+        assert(is_from(out[m], t2));
+        let i2 = choose|i2: int| 0 <= i2 < t2.len() && #[trigger] t2[i2] == out[m];
+        let fi = if i2 == 0 { w_at } else { i2 + 1 };
+        assert(t[fi] == out[m]);
+    }
+    assert forall|i: int| 0 <= i < t.len() implies covered(#[trigger] t[i], out) by {
+        let i2 = if i <= 1 { 0 } else { i - 1 };
+        assert(dominates(t2[i2], t[i]));
+        assert(covered(t2[i2], out));
+        let m = choose|m: int| 0 <= m < out.len() && dominates(#[trigger] out[m], t2[i2]);
+        assert(dominates(out[m], t[i]));
+    }
+}
+
+/// in a grouped sequence whose first two keys differ, the first key does not occur again
+pub proof fn lemma_grouped_head(t: Seq<EntryV>)
+    requires grouped(t), t.len() >= 2, t[0].id.key != t[1].id.key
+    ensures forall|k: int| 1 <= k < t.len() ==> (#[trigger] t[k]).id.key != t[0].id.key
+{
+    assert forall|k: int| 1 <= k < t.len() implies (#[trigger] t[k]).id.key != t[0].id.key by {
+        if k > 1 {
+            assert(t[0].id.key == t[k].id.key ==> t[1].id.key == t[0].id.key);
+        }
+    }
+}
+
+/// step "new key": t = [x, e] + rest with x.key != e.key; x is emitted, then the outputs `out2` for t.drop_first()
+pub proof fn lemma_case_new(t: Seq<EntryV>, out2: Seq<EntryV>, out: Seq<EntryV>)
+    requires
+        t.len() >= 2,
+        forall|k: int| 1 <= k < t.len() ==> (#[trigger] t[k]).id.key != t[0].id.key,
+        out == seq![t[0]] + out2,
+        from_input(out2, t.drop_first()), keys_distinct(out2), covers_max(out2, t.drop_first()),
+    ensures from_input(out, t), keys_distinct(out), covers_max(out, t)
+{
+    let t2 = t.drop_first();
+    assert(out[0] == t[0]);
+    assert forall|m: int| 1 <= m < out.len() implies #[trigger] out[m] == out2[m - 1] by {}
+    assert forall|i: int| 0 <= i < t2.len() implies #[trigger] t2[i] == t[i + 1] by {}
+    assert(from_input(out, t)) by {
+        assert forall|m: int| 0 <= m < out.len() implies is_from(#[trigger] out[m], t) by {
+            if m == 0 {
+                assert(t[0] == out[0]);
+            } else {
+                assert(is_from(out2[m - 1], t2));
+                let i2 = choose|i2: int| 0 <= i2 < t2.len() && #[trigger] t2[i2] == out2[m - 1];
+                assert(t[i2 + 1] == out[m]);
+            }
+        }
+    }
+    assert(keys_distinct(out)) by {
+        assert forall|m: int, n: int| #![trigger out[m], out[n]] 0 <= m < n < out.len() implies out[m].id.key != out[n].id.key by {
+            if m == 0 {
+                assert(is_from(out2[n - 1], t2));
+                let i2 = choose|i2: int| 0 <= i2 < t2.len() && #[trigger] t2[i2] == out2[n - 1];
+                assert(t[i2 + 1] == out[n]);
+                assert(t[i2 + 1].id.key != t[0].id.key);
+            } else {
+                assert(out[m] == out2[m - 1] && out[n] == out2[n - 1]);
+            }
+        }
+    }
+    assert(covers_max(out, t)) by {
+        assert forall|i: int| 0 <= i < t.len() implies covered(#[trigger] t[i], out) by {
+            if i == 0 {
+                assert(dominates(out[0], t[0]));
+            } else {
+                assert(t[i] == t2[i - 1]);
+                assert(covered(t2[i - 1], out2));
+                let m2 = choose|m2: int| 0 <= m2 < out2.len() && dominates(#[trigger] out2[m2], t2[i - 1]);
+                assert(out[m2 + 1] == out2[m2]);
+                assert(dominates(out[m2 + 1], t[i]));
+            }
+        }
     }
 }
 
@@ -86,7 +198,8 @@ pub proof fn lemma_feed(p: Option<EntryV>, s: Seq<EntryV>)
             Some(x) => {
                 assert(out =~= seq![x]);
                 assert(t =~= seq![x]);
-                assert(out[0] == t[0]);
+                assert(t[0] == out[0]);
+                assert(dominates(out[0], t[0]));
             }
             None => {
                 assert(out =~= Seq::<EntryV>::empty());
@@ -99,87 +212,33 @@ pub proof fn lemma_feed(p: Option<EntryV>, s: Seq<EntryV>)
         match p {
             None => {
                 // pending := e, nothing emitted; T unchanged
-                let t2 = pre(Some(e)) + rest;
-                assert(t2 =~= t);
+                assert(pre(Some(e)) + rest =~= t);
                 lemma_feed(Some(e), rest);
                 assert(out =~= feed(Some(e), rest));
             }
             Some(x) => {
                 assert(t[0] == x && t[1] == e);
-                assert forall|i: int| 2 <= i < t.len() implies t[i] == rest[i - 2] by {}
-                if x.id.key == e.id.key {
+                if x.id.key =~= e.id.key {
                     let w = if e.val.ts > x.val.ts { e } else { x };
-                    let t2 = pre(Some(w)) + rest;
-                    let out2 = feed(Some(w), rest);
-                    assert(out =~= out2);
-                    assert(t2[0] == w);
-                    assert forall|i: int| 1 <= i < t2.len() implies t2[i] == t[i + 1] by {}
                     let w_at: int = if e.val.ts > x.val.ts { 1 } else { 0 };
+                    let t2 = pre(Some(w)) + rest;
+                    assert(out =~= feed(Some(w), rest));
                     assert(t2[0] == t[w_at]);
-                    // grouped(t2): t2 is t without one of its first two elements
-                    assert forall|i: int, j: int, k: int| #![trigger t2[i], t2[j], t2[k]] 0 <= i < j < k < t2.len() && t2[i].id.key == t2[k].id.key implies t2[j].id.key == t2[i].id.key by {
-                        let fi = if i == 0 { w_at } else { i + 1 };
-                        assert(t2[i] == t[fi] && t2[j] == t[j + 1] && t2[k] == t[k + 1]);
-                        assert(fi < j + 1 < k + 1);
-                    }
+                    assert forall|i: int| 1 <= i < t2.len() implies #[trigger] t2[i] == t[i + 1] by {}
+                    lemma_grouped_sub(t, t2, w_at);
                     lemma_feed(Some(w), rest);
-                    assert forall|m: int| 0 <= m < out.len() implies exists|i: int| 0 <= i < t.len() && #[trigger] out[m] == #[trigger] t[i] by {
-                        let i2 = choose|i2: int| 0 <= i2 < t2.len() && out2[m] == t2[i2];
-                        let fi = if i2 == 0 { w_at } else { i2 + 1 };
-                        assert(out[m] == t[fi]);
-                    }
-                    assert forall|i: int| 0 <= i < t.len() implies exists|m: int| 0 <= m < out.len() && (#[trigger] out[m]).id.key == (#[trigger] t[i]).id.key && out[m].val.ts >= t[i].val.ts by {
-                        let i2 = if i <= 1 { 0 } else { i - 1 };
-                        assert(t2[i2].id.key == t[i].id.key && t2[i2].val.ts >= t[i].val.ts);
-                        let m = choose|m: int| 0 <= m < out2.len() && out2[m].id.key == t2[i2].id.key && out2[m].val.ts >= t2[i2].val.ts;
-                        assert(out[m].id.key == t[i].id.key && out[m].val.ts >= t[i].val.ts);
-                    }
+                    lemma_case_same(t, t2, out, w_at);
                 } else {
                     // x is emitted, pending := e
                     let t2 = pre(Some(e)) + rest;
                     let out2 = feed(Some(e), rest);
+                    assert(t2 =~= t.drop_first());
                     assert(out =~= seq![x] + out2);
-                    assert(out[0] == x);
-                    assert forall|m: int| 1 <= m < out.len() implies out[m] == out2[m - 1] by {}
-                    assert forall|i: int| 0 <= i < t2.len() implies t2[i] == t[i + 1] by {}
-                    assert forall|i: int, j: int, k: int| #![trigger t2[i], t2[j], t2[k]] 0 <= i < j < k < t2.len() && t2[i].id.key == t2[k].id.key implies t2[j].id.key == t2[i].id.key by {
-                        assert(t2[i] == t[i + 1] && t2[j] == t[j + 1] && t2[k] == t[k + 1]);
-                    }
+                    assert forall|i: int| 1 <= i < t2.len() implies #[trigger] t2[i] == t[i + 1] by {}
+                    lemma_grouped_sub(t, t2, 1);
                     lemma_feed(Some(e), rest);
-                    assert forall|m: int| 0 <= m < out.len() implies exists|i: int| 0 <= i < t.len() && #[trigger] out[m] == #[trigger] t[i] by {
-                        if m == 0 {
-                            assert(out[0] == t[0]);
-                        } else {
-                            let i2 = choose|i2: int| 0 <= i2 < t2.len() && out2[m - 1] == t2[i2];
-                            assert(out[m] == t[i2 + 1]);
-                        }
-                    }
-                    assert forall|m: int, n: int| #![trigger out[m], out[n]] 0 <= m < n < out.len() implies out[m].id.key != out[n].id.key by {
-                        if m == 0 {
-                            let i2 = choose|i2: int| 0 <= i2 < t2.len() && out2[n - 1] == t2[i2];
-                            assert(out[n] == t[i2 + 1]);
-                            if out[n].id.key == x.id.key {
-                                if i2 + 1 > 1 {
-                                    // grouped(t) at (0, 1, i2+1) forces e.key == x.key
-                                    assert(t[0].id.key == t[i2 + 1].id.key);
-                                    assert(t[1].id.key == t[0].id.key);
-                                }
-                                assert(false);
-                            }
-                        } else {
-                            assert(out[m] == out2[m - 1] && out[n] == out2[n - 1]);
-                        }
-                    }
-                    assert forall|i: int| 0 <= i < t.len() implies exists|m: int| 0 <= m < out.len() && (#[trigger] out[m]).id.key == (#[trigger] t[i]).id.key && out[m].val.ts >= t[i].val.ts by {
-                        if i == 0 {
-                            assert(out[0].id.key == t[0].id.key && out[0].val.ts >= t[0].val.ts);
-                        } else {
-                            assert(t[i] == t2[i - 1]);
-                            let m2 = choose|m2: int| 0 <= m2 < out2.len() && out2[m2].id.key == t2[i - 1].id.key && out2[m2].val.ts >= t2[i - 1].val.ts;
-                            assert(out[m2 + 1] == out2[m2]);
-                            assert(out[m2 + 1].id.key == t[i].id.key && out[m2 + 1].val.ts >= t[i].val.ts);
-                        }
-                    }
+                    lemma_grouped_head(t);
+                    lemma_case_new(t, out2, out);
                 }
             }
         }
